@@ -43,7 +43,7 @@ CLAIMED = {
            "law and geometry for all wires.",
            "DESIGN.md 4 (C08), 9", "NOT decided: the run-dependent HashMap bijections (wire map, pad map, run 10418 switch, simulation = run 5000); see not-decided note in the evidence."),
  "C18": _c("Real DriftTables::at / DriftTable::at over the shipped tables (dumped bit-exactly from the crate at every run): per table "
-           "windows of consecutive real knots (first 12, last 12, middle 48; complete tables best effort), t in [-1e-6, 5e-6] s: success "
+           "windows of consecutive real knots (first 8, last 8, middle 48; complete tables best effort), t in [-1e-6, 5e-6] s: success "
            "<=> t within first/last knot, error kind, radius/correction bounds, knot reproduction to 1e-12; slice selection and z symmetry "
            "over all 92 real z bounds.",
            "DESIGN.md 4 (C18), 9", "Monotonicity and 8 ns continuity are two-lookup float queries: best effort, reported per run. Hook VerifDriftTables::from_static."),
